@@ -1707,6 +1707,52 @@ Section Job.
           split; [|intro X; discriminate X]. eapply job_wrap; eauto. eapply jstep_trans; eauto.
   Qed.
 
+  (* a check never puts a failure mark on a row *)
+  Lemma is_dirty_failed_back : forall fuel cyc w c f r mx seen v w' c' evs,
+    is_dirty fuel R cyc w c f r mx seen = Ret (v, w', c', evs) ->
+    forall g k, r_failed (get_row (dbs w') g) = Some k -> r_failed (get_row (dbs w) g) = Some k.
+  Proof.
+    induction fuel as [|fuel IH]; intros cyc w c f r mx seen v w' c' evs H; [discriminate|].
+    cbn [is_dirty] in H.
+    destruct (existsb (Nat.eqb f) seen); [injection H as _ <- _ _; auto|].
+    destruct (r_failed r) eqn:Hfl; [injection H as _ <- _ _; auto|].
+    destruct (r_changed r) as [chg|]; [|injection H as _ <- _ _; auto].
+    destruct (Z.ltb mx chg); [injection H as _ <- _ _; auto|].
+    destruct (chk_is_checked c R r f); [injection H as _ <- _ _; auto|].
+    destruct (r_stamp r) as [old|]; [|injection H as _ <- _ _; auto].
+    assert (Hput : forall wk r', r_failed r' = None ->
+              (forall g k, r_failed (get_row (dbs wk) g) = Some k -> r_failed (get_row (dbs w) g) = Some k) ->
+              forall g k, r_failed (get_row (dbs (set_db wk (put_row (dbs wk) f r'))) g) = Some k -> r_failed (get_row (dbs w) g) = Some k).
+    { intros wk r' Hr' Hk g k Hg. cbn [dbs set_db] in Hg.
+      destruct (Nat.eq_dec (g - 1) (f - 1)) as [E|E].
+      - unfold get_row in Hg. rewrite rows_put_row, E in Hg.
+        destruct (Nat.le_gt_cases (length (rows (dbs wk))) (f - 1)) as [Hb|Hb].
+        + rewrite set_nth_beyond in Hg by exact Hb. apply Hk. unfold get_row. rewrite E. exact Hg.
+        + rewrite nth_set_nth in Hg by exact Hb. congruence.
+      - rewrite get_row_put_row_other in Hg by exact E. apply Hk. exact Hg. }
+    destruct (negb (stamp_eqb old (read_stamp w (r_name r)))).
+    - injection H as _ <- _ _. unfold forget_missing. destruct (read_stamp w (r_name r)); [|auto].
+      destruct (r_gen r); [|auto]. apply Hput; [reflexivity|auto].
+    - eapply (walk_deps_inv2 (fun wk => forall g k, r_failed (get_row (dbs wk) g) = Some k -> r_failed (get_row (dbs w) g) = Some k)
+                             (fun wk => forall g k, r_failed (get_row (dbs wk) g) = Some k -> r_failed (get_row (dbs w) g) = Some k)
+                             (fun _ _ => True)); [| | |apply Forall_trivial|intros g k Hg; exact Hg|exact H].
+      + intros w1 c1 d rs v1 w1' c1' e1 _ Hw1 E g k Hg. cbv beta in E.
+        destruct (existsb (Nat.eqb (d_source d)) cyc); [injection E as _ <- _ _; apply Hw1; exact Hg|].
+        apply Hw1. exact (IH _ _ _ _ _ _ _ _ _ _ _ E g k Hg).
+      + intros w1 Hw1. exact Hw1.
+      + intros w1 Hw1. apply Hput; [exact Hfl|exact Hw1].
+  Qed.
+
+  Lemma noov_ovr_now w f : noov_at w f -> is_alw w f = false ->
+    ovr_now (ldw w f) (read_stamp w (nm w f)) = false.
+  Proof.
+    intros [Ho Hg] Ha. rewrite (ld_not_alw R w f Ha). unfold ovr_now. rewrite Ho. cbn [orb].
+    destruct (r_gen (get_row (dbs w) f)) eqn:Eg; [|reflexivity]. cbn [andb].
+    destruct (Hg eq_refl) as (s0 & Hs & [Hm|Hm]).
+    - rewrite Hs. unfold detect_override. rewrite Hm. cbn. apply andb_false_r.
+    - rewrite Hm. cbn. reflexivity.
+  Qed.
+
   (* ---------------------------------------------------------------- a check that does not answer "clean" *)
   Lemma walk_not_clean_inv (I : world -> Prop) (Q : dep -> row -> Prop) isd f r :
     (forall w1 c1 d rs v w' c' evs, Q d rs -> d_mode d = DModified -> I w1 ->
@@ -1843,6 +1889,72 @@ Section Job.
       + intros d _. now rewrite D.
     - intro Hv. eapply check_not_ok; eauto.
     - eapply (is_dirty_no_need ex); eauto.
+  Qed.
+
+  Lemma extends_jstep ex w w1 :
+    JINV w ex -> extends w w1 -> deps (dbs w1) = deps (dbs w) -> JINV w1 ex -> (forall g, ok w ex g -> ok w1 ex g) ->
+    jstep ex ex w w1.
+  Proof.
+    intros (_ & _ & _ & Hu) Hext Hd Hj Hm. pose proof Hext as (Hfs & Hup & Hn & Hrows).
+    split; [exact Hn|]. split; [split; [exact Hup|intros n _; now rewrite Hfs]|]. split; [exact Hj|]. split; [exact Hm|].
+    intros x Hx. split; [apply Hrows; exact (proj1 (Hu x Hx))|]. intros d _. now rewrite Hd.
+  Qed.
+
+  (* BuildJob::start for redo-ifchange *)
+  Lemma start_spec rec fuel e ex t w w' evs rv ab :
+    rec_spec rec -> e_runid e = R -> JINV w ex -> PROJ w -> tgt_ok w ex t ->
+    start rec fuel e MIfChange t w = Ret (w', evs, rv, ab) ->
+    jstep ex ex w w' /\ (rv = 0%Z -> exists f, find_row (rows (dbs w')) t 1 = Some f /\ ok w' ex f).
+  Proof.
+    intros Hrec HR Hj Hp Ht H. pose proof Ht as (Tw & Tr & Tk).
+    unfold start in H. rewrite HR in H.
+    destruct (from_name (dbs w) t) as [d0 f] eqn:Efn.
+    destruct (from_name_JINV w ex t d0 f Hj Tr Efn) as (E0 & J0 & M0 & Vf & Nf & D0 & F0 & _).
+    set (w0 := set_db w d0) in *.
+    assert (Js0 : jstep ex ex w w0) by (exact (extends_jstep ex w w0 Hj E0 D0 J0 M0)).
+    assert (Ht0 : tgt_ok w0 ex t) by (exact (tgt_ok_jstep ex ex w w0 t Hj Js0 Ht)).
+    pose proof (PROJ_wsame w w0 (proj1 (proj2 Js0)) Hp) as Hp0.
+    assert (Hf : ~ In f ex).
+    { intro X. destruct Ht0 as (_ & _ & K). specialize (K f X). unfold rkf in K. rewrite Nf in K. lia. }
+    cbv zeta in H.
+    destruct (is_failed R (load R (dbs w0) f)) eqn:Efail.
+    { injection H as <- _ <- _. split; [exact Js0|intro X; discriminate X]. }
+    destruct (is_dirty fuel R (e_cycles e) w0 ChkDb f (load R (dbs w0) f) R []) as [[[[v w1] c1] evd]|] eqn:Ed; [|discriminate].
+    assert (Hbel : below rk w0 f ex).
+    { intros x Hx. destruct Ht0 as (_ & _ & K). specialize (K x Hx). unfold rkf in *. rewrite Nf. exact K. }
+    destruct (check_jstep w0 ex fuel (e_cycles e) f v w1 c1 evd J0 Vf) as (Js1 & Hcl & Hncl & Hnn & N1); auto.
+    { rewrite Nf. exact Tr. }
+    pose proof (jstep_trans _ _ _ _ _ Js0 Js1) as Js01. pose proof Js1 as (Jn1 & W1 & Jj1 & _).
+    assert (Vf1 : valid w1 f) by (eapply valid_names; eauto).
+    assert (Nf1 : nm w1 f = t) by (rewrite (nm_names w0 w1 f N1); exact Nf).
+    assert (F1 : find_row (rows (dbs w1)) t 1 = Some f) by (eapply NAMES_find; eauto).
+    assert (Hv : (match v with VNeed [x] => if Nat.eqb x f then VDirty else v | _ => v end) = v).
+    { destruct v as [| |l|]; try reflexivity. exfalso. exact (Hnn l eq_refl). }
+    rewrite Hv in H. destruct v as [| |l|].
+    - injection H as <- _ <- _. split; [exact Js01|]. intros _. exists f. split; [exact F1|apply Hcl; reflexivity].
+    - (* the job *)
+      assert (Hnok : ~ ok w1 ex f) by (apply Hncl; discriminate).
+      destruct (start_self rec e t f (fs_get (fs w0) t) w1) as [[[[w2 ev2] rv2] ab2]|] eqn:Ess; [|discriminate].
+      cbn [prepend_events] in H. injection H as <- _ <- _.
+      assert (Ha1 : is_alw w1 f = false) by (apply not_reserved_not_alw; rewrite Nf1; exact Tr).
+      assert (Hum : marked (ldw w1 f) = false).
+      { destruct (marked (ldw w1 f)) eqn:Em; [|reflexivity]. exfalso.
+        pose proof Jj1 as ((_ & Hmark) & Hx1 & _). destruct (Hx1 f Vf1) as (_ & _ & _ & A4 & _).
+        destruct (A4 Em) as [X|X].
+        - apply Hnok. apply Hmark; auto. rewrite (ld_not_alw R w1 f Ha1). exact X.
+        - pose proof (is_dirty_failed_back _ _ _ _ _ _ _ _ _ _ _ _ Ed f R X) as X0.
+          unfold is_failed in Efail. assert (Ha0 : is_alw w0 f = false) by (apply not_reserved_not_alw; rewrite Nf; exact Tr).
+          fold (ldw w0 f) in Efail. rewrite (ld_not_alw R w0 f Ha0), X0, (OnceProofs.geb_self R Rpos) in Efail. discriminate. }
+      assert (Hnoov : noov_at w1 f).
+      { destruct Jj1 as (_ & Hx1 & _). destruct (Hx1 f Vf1) as (_ & _ & _ & _ & A5). exact (A5 Hf). }
+      rewrite start_self_pieces in Ess. rewrite HR in Ess. cbv zeta in Ess.
+      pose proof (noov_ovr_now w1 f Hnoov Ha1) as Ho. rewrite Nf1 in Ho. rewrite Ho in Ess.
+      destruct (ss_rest_spec rec e ex t f (fs_get (fs w0) t) w1 w2 ev2 rv2 ab2 Hrec HR Jj1
+                             (PROJ_wsame w0 w1 W1 Hp0) (tgt_ok_jstep ex ex w0 w1 t J0 Js1 Ht0) Nf1 Vf1 Hf F1 Hnok Hum Ess) as (Js2 & Hok2).
+      split; [eapply jstep_trans; eauto|]. intro E0'. exists f. split; [|apply Hok2; exact E0'].
+      destruct Js2 as (Jn2 & _). eapply NAMES_find; eauto.
+    - exfalso. exact (Hnn l eq_refl).
+    - injection H as <- _ <- _. split; [exact Js01|intro X; discriminate X].
   Qed.
 
 End Job.
